@@ -87,7 +87,7 @@ class SpoolCheck(object):
         big = ctx is not None and ctx.thorough and r.random() < 0.03
         for _ in range(r.randint(1, r.choice([5, 15, 40]))):
             k = r.choices(['write', 'read_n', 'read', 'readline', 'readlines', 'next', 'seek', 'tell', 'len',
-                           'getvalue'], [22, 14, 6, 12, 3, 8, 16, 6, 8, 5])[0]
+                           'getvalue', 'keep-iter', 'next-kept'], [22, 14, 6, 12, 3, 8, 16, 6, 8, 5, 2, 5])[0]
             if k == 'write':
                 data = self.chunk(r, exotic)
                 if big and r.random() < 0.3:
@@ -119,6 +119,7 @@ class SpoolCheck(object):
         # that only sees the history's own calls (reading the state flushes buffers and would hide some bugs)
         files = [(ms, cls(max_size=ms)) for ms in sizes] + [(-ms, cls(max_size=ms)) for ms in sizes]
         rolled_at = {}
+        kept, model_it = {}, None
         try:
             for i, op in enumerate(h['ops']):
                 name = op[0]
@@ -147,6 +148,19 @@ class SpoolCheck(object):
                 elif name == 'next':
                     want = outcome(lambda: next(model))
                     do = lambda f: next(f)
+                elif name == 'keep-iter':
+                    # an iterator obtained now and used later (after more writes, possibly after a rollover)
+                    want = ('ok', None)
+                    model_it = iter(model)
+
+                    def do(f):
+                        kept[id(f)] = iter(f)
+                        return None
+                elif name == 'next-kept':
+                    if model_it is None:
+                        continue
+                    want = outcome(lambda: next(model_it))
+                    do = lambda f: next(kept[id(f)])
                 elif name == 'seek':
                     p = int(op[1] * len(model.getvalue()))
                     want = outcome(model.seek, p)
@@ -218,7 +232,7 @@ class SpoolCheck(object):
         op = f.op[0] if f.op else '?'
         content = getattr(f, 'content', '')
         if kind == 'sstring' and any(ch in content for ch in EXOTIC) and \
-                any(o[0] in ('readline', 'readlines', 'next') for o in h['ops']):
+                any(o[0] in ('readline', 'readlines', 'next', 'next-kept') for o in h['ops']):
             cr_only = not any(ch in content for ch in EXOTIC[1:])
             return 'sstring:line-reads:universal-newlines'
         prior = sorted(set(o[0] for o in h['ops'][:max(f.step, 0)] if o[0] not in ('write',)))
@@ -240,6 +254,15 @@ class MfrCheck(object):
         return dict(h, ops=list(ops))
 
     def gen(self, r, ctx):
+        if getattr(self, 'big', False):
+            # members of a megabyte and more, reads asking for more than that
+            text = r.random() < 0.5
+            unit = '0123456789abcde\n' if not text else '0123456789abcd\xe9\n'
+            sizes = [r.choice([2 ** 20, 2 ** 20 + 1, 1500000, 300000, 2 ** 21, 5]) for _ in range(r.choice([2, 3]))]
+            ops = [['read', r.choice([2 ** 20 + 1, 2 ** 21, 5 * 2 ** 20, 2 ** 20, 3000000])] for _ in range(r.randint(1, 4))] + [['read']]
+            if r.random() < 0.5:
+                ops = ops + [['seek0']] + ops
+            return {'kind': 'mfr', 'text': text, 'parts': [['rep', unit, n] for n in sizes], 'members': ['mem'] * len(sizes), 'ops': ops}
         text = r.random() < 0.5
         n = r.choice([1, 2, 2, 3, 4, 5])
         parts = []
@@ -265,6 +288,8 @@ class MfrCheck(object):
         opened, tmpdir = [], None
         try:
             members = []
+            # big parts are stored as ['rep', unit, length]
+            h = dict(h, parts=[(p[1] * (p[2] // len(p[1]) + 1))[:p[2]] if isinstance(p, list) else p for p in h['parts']])
             for part, kind in zip(h['parts'], h['members']):
                 data = part if h['text'] else part.encode('latin-1')
                 if kind == 'mem':
@@ -348,6 +373,9 @@ def run(ctx):
     explore(ctx, SpoolCheck(False), n, 'sbytes')
     explore(ctx, SpoolCheck(True), n, 'sstring')
     explore(ctx, MfrCheck(), n * 2, 'mfr')
+    bigm = MfrCheck()
+    bigm.big = True
+    explore(ctx, bigm, {'quick': 3, 'thorough': 60}[ctx.tier], 'mfr-big')
     for text in (True, False):
         big = SpoolCheck(text)
         big.big = True
